@@ -447,6 +447,9 @@ pub fn random_runs(args: &pv_core::Args) {
         let sent_w = *rng.pick(&[1u64, 3, 8]);
         // C27 runs and every second C29 run are "tame" (no Connected without an outstanding Connect, no stray handshake
         // messages), so that long runs exist next to the ones that hit the handshake assertion early
+        // per-run profile: error storms / disconnect storms in some runs
+        let err_w = if mode == "c28" { 1 } else { *rng.pick(&[1u64, 1, 12]) };
+        let disc_w = if mode == "c28" { 1 } else { *rng.pick(&[1u64, 1, 6]) };
         let tame = mode == "c27" || (mode == "c29" && run % 2 == 1);
         let mut n = 0;
         while n < events {
@@ -461,8 +464,8 @@ pub fn random_runs(args: &pv_core::Args) {
                 c.push((bw, Step::new("ban", t)));
                 c.push((bw, Step::new("demote", t)));
                 c.push((6, Step::new("contsync", *rng.pick(&tracked))));
-                c.push((1, Step::new("disconnected", *rng.pick(&tracked))));
-                c.push((1, Step::new("error", *rng.pick(&tracked))));
+                c.push((disc_w, Step::new("disconnected", *rng.pick(&tracked))));
+                c.push((err_w, Step::new("error", *rng.pick(&tracked))));
                 if d.cfg.leios {
                     c.push((1, Step::new("fetcheb", *rng.pick(&tracked))));
                     c.push((1, Step::new("fetchebtxs", *rng.pick(&tracked))));
